@@ -1,10 +1,12 @@
 """Helpers of the C14 check (hierarchical names): shape <-> Python source, object tables, tokeniser.
 
 A *shape* is the Python image of a state of spec/Names.tla:
-    {"decl": [{"path": [...], "kind": ..., "dims": [...], "ty": ...}, ...],
+    {"decl": [{"path": [...], "kind": ..., "dims": [...], "rag": [{"ix": [...], "leaf": bool}, ...], "ty": ...}, ...],
      "ment": [{"path": [...], "ix": [[...], ...], "expr": [step, ...], "how": "upblk"|"connect"}, ...]}
     step = {"t": "f"|"s"|"b", "n": str, "ix": [...], "lo": int, "hi": int}
-The mention list is a *sequence* (its order fixes the names k<j> of the sink wires).
+The mention list is a *sequence* (its order fixes the names k<j> of the sink wires).  `rag` (non-empty
+only for ragged / mixed lists, then dims == []) is the depth-first flattening of the list tree: one entry
+per object (leaf) and one per empty sub-list.
 """
 import importlib.util
 import json
@@ -52,7 +54,10 @@ def shape_from_state(st):
     for d in st["decl"]:
         d = _undict(d)
         decl.append({"path": [str(x) for x in d["path"]], "kind": str(d["kind"]),
-                     "dims": [int(x) for x in d["dims"]], "ty": str(d["ty"])})
+                     "dims": [int(x) for x in d["dims"]],
+                     "rag": [{"ix": [int(i) for i in _undict(e)["ix"]], "leaf": bool(_undict(e)["leaf"])}
+                             for e in d["rag"]],
+                     "ty": str(d["ty"])})
     ment = []
     for m in st["ment"]:
         m = _undict(m)
@@ -66,10 +71,65 @@ def shape_key(sh):
     return json.dumps(sh, sort_keys=True)
 
 
+def rag_tree(rag):
+    """flattening -> nested Python lists with None at the objects"""
+    root = []
+    for e in rag:
+        cur = root
+        for k, i in enumerate(e["ix"]):
+            last = k == len(e["ix"]) - 1
+            if i > len(cur):
+                raise ValueError("not a depth-first flattening: %r" % (rag,))
+            if i == len(cur):
+                cur.append((None if e["leaf"] else []) if last else [])
+            elif last or not isinstance(cur[i], list):
+                raise ValueError("not a depth-first flattening: %r" % (rag,))
+            if not last:
+                cur = cur[i]
+    return root
+
+
+def rag_flat(tree, pre=()):
+    """nested lists (anything that is not a list is an object) -> flattening"""
+    out = []
+    for i, t in enumerate(tree):
+        if isinstance(t, list):
+            out += rag_flat(t, pre + (i,)) if t else [{"ix": list(pre + (i,)), "leaf": False}]
+        else:
+            out.append({"ix": list(pre + (i,)), "leaf": True})
+    return out
+
+
+def rag_text(tree, leaf="o"):
+    return "[" + ",".join(rag_text(t, leaf) if isinstance(t, list) else leaf for t in tree) + "]"
+
+
+def rag_class(rag):
+    """coarse class of a list tree used in violation keys: kind of the first element, nesting depth,
+    presence of empty sub-lists"""
+    tree = rag_tree(rag)
+
+    def depth(t):
+        return 1 + max([depth(x) for x in t if isinstance(x, list)] or [0])
+    return "list(first=%s,depth=%d%s)" % ("list" if isinstance(tree[0], list) else "object", depth(tree),
+                                          ",empty-sublist" if any(not e["leaf"] for e in rag) else "")
+
+
+def leaves(d):
+    """index paths of the objects of a declaration"""
+    if d.get("rag"):
+        return [list(e["ix"]) for e in d["rag"] if e["leaf"]]
+    out = [[]]
+    for n in d["dims"]:
+        out = [p + [i] for p in out for i in range(n)]
+    return out
+
+
 def describe(sh):
     """compact one-line description of a shape (used in samples and violation details)"""
     def dd(d):
         return "%s:%s%s%s" % (".".join(d["path"]), d["kind"], ("(" + d["ty"] + ")") if d["ty"] else "",
+                              rag_text(rag_tree(d["rag"])) if d.get("rag") else
                               "".join("[%d]" % x for x in d["dims"]))
     out = " ".join(dd(d) for d in sh["decl"])
     for m in sh["ment"]:
@@ -161,6 +221,8 @@ def gen_source(sh, prefix=""):
                 ctor = "%s( %s )" % (d["kind"], d["ty"] if d["ty"] in ("I", "P") else PY_TYPES[d["ty"]])
             else:
                 ctor = "%s()" % d["kind"]
+            if d.get("rag"):       # a literal: every object is a separate constructor call
+                ctor = rag_text(rag_tree(d["rag"]), ctor).replace(",", ", ").replace("[", "[ ").replace("]", " ]")
             for k, n in enumerate(reversed(d["dims"])):
                 ctor = "[ %s for _%d in range(%d) ]" % (ctor, k, n)
             body.append("s.%s = %s" % (d["path"][-1], ctor))
@@ -376,7 +438,10 @@ def build_chunk(args):
                             "everr": [r["everr"] for t in tabs for r in t if "everr" in r][:3]})
             except Exception as e:   # noqa
                 import traceback
-                out.append({"error": traceback.format_exc(), "shape": sh})
+                fr = [f for f in traceback.extract_tb(e.__traceback__)
+                      if os.sep + "pymtl3" + os.sep in f.filename]
+                out.append({"error": traceback.format_exc(), "shape": sh, "exc": type(e).__name__,
+                            "where": "%s.%s" % (os.path.basename(fr[-1].filename)[:-3], fr[-1].name) if fr else "?"})
     finally:
         sys.modules.pop(name, None)
     return out
